@@ -1,5 +1,32 @@
 # C16 -- linear algebra: shapes / validity / index helpers
-META = dict(level='proof', level_text='wip', level_note='wip', trusted_base=[], assumptions=[], not_covered=[])
+META = dict(
+    level='proof',
+    level_text='Only the shape, validity and index-helper layer of the linear-algebra routines is covered, not the element values. '
+               'Proved for every input of the instantiation (ranks 1..8 symbolic, all positive 64-bit extents; loops closed by loop contracts, bit-precise): '
+               'index::shape_matmul equals the NumPy matmul shape rule (Nothing iff the contracted extents differ or the batch parts do not broadcast; else broadcast(batch) ++ (n, m), incl. 1-d promotion on either side); '
+               'index::matmul (element selection of matmul_t) yields in-bounds slices selecting row i of the broadcast left batch element and column j of the right one (fixed-rank kinds 2x2, 3x3, 4x2, 2x4, 4x3); '
+               'the argument helpers of the matmulv2 / dot / inner / tensordot / kron view pipelines produce exactly the permutation / shape that the pipeline needs to compute the NumPy result '
+               '(position-wise characterisation; equal element count and "is a permutation" are corollaries).',
+    level_note='The defining sum of products (a composition over a 4..6 stage view pipeline: tile/reshape/transpose/multiply/sum) is NOT verified: '
+               'per-function contracts state what each stage argument is, not that the composed views compute the sum. Trusted: clang AST, cxx2c rendering, CBMC, C models of std::optional/tuple/array.',
+    trusted_base=['clang 14 front end (AST of the instantiated templates)', 'engine/cxx2c.py (C++ AST -> C rendering)',
+                  'cbmc 6.11.0 / goto-instrument --dfcc (contract instrumentation, SAT back end)',
+                  'C models of std::optional / std::tuple / std::array (generated prelude)',
+                  'spec/c16.h: the NumPy rules written as C predicates (matmul shape rule; broadcast macros shared textually with spec/c06.h)'],
+    assumptions=['configuration -DNDEBUG, STL enabled; shapes of kind utl::static_vector<size_t,8> (rank symbolic) resp. std::array<size_t,N> for the slice helper; '
+                 'number of dimensions passed as clipped_size_t<8> (the kind that yields bounded results; a plain size_t yields std::vector results, not modelled)',
+                 'operand ranks >= 1 (matmul/dot/inner of 0-d operands is outside the property; shape_matmul reads ashape[-1] without a rank check)',
+                 'extents >= 1 (the property quantifies over positive extents; with a 0 extent in a batch axis the library\'s max rule differs from NumPy, see C06)',
+                 'tensordot explicit axes: in range and pairwise distinct (as NumPy requires; the view unwraps normalize_axis unchecked); lhs_dim + rhs_dim - n <= 15 (capacity of the result type chosen by the library)',
+                 'kron_dst_reshape: products are uninterpreted (mode uf) -- the result extent is literally the product term of the aligned extents',
+                 'ghost traces (CNT, KRP) are functional definitions assumed in the precondition'],
+    not_covered=['element values: result elements equal the defining sums of products over the contracted index ranges (composition over the view pipeline; outside per-function contracts)',
+                 'index::matmul for bounded-rank shapes (slice element type std::variant, not modelled) -- covered for fixed ranks only',
+                 'index::kron_dst_transpose (recursive; its instantiation chain ends in std::vector results, not modelled)',
+                 'outer, vecdot, trace: no index helper of their own (compositions of broadcasting multiply / sum / diagonal: C06, C08, C04)',
+                 'maybe-lifting overloads and compile-time (constant index) branches (type level)',
+                 'both matmul implementations computing equal elements'],
+)
 UNITS = [
     Unit('split.bp', 'c16', 'verif_split', mode='bp', unwind=10, clause='helper'),
     Unit('shape_matmul.bp', 'c16', 'verif_shape_matmul', mode='bp', unwind=10, unwind_loops={'hybrid_ndarray.*resize': 3, 'detail_init_': 3}, object_bits=12, clause='matmul shape'),
@@ -8,4 +35,19 @@ UNITS = [
     Unit('matmul_slices_42.bp', 'c16', 'verif_matmul_slices_42', mode='bp', unwind=10, clause='matmul element selection: row/column slices of the broadcast batch element (4-d x 2-d)'),
     Unit('matmul_slices_24.bp', 'c16', 'verif_matmul_slices_24', mode='bp', unwind=10, clause='matmul element selection: row/column slices of the broadcast batch element (2-d x 4-d)'),
     Unit('matmul_slices_43.bp', 'c16', 'verif_matmul_slices_43', mode='bp', unwind=10, clause='matmul element selection: row/column slices of the broadcast batch element (4-d x 3-d, batch parts of different rank)'),
+    Unit('matmul_rhs_transpose.bp', 'c16', 'verif_matmul_rhs_transpose', mode='bp', unwind=10, clause='matmul (pipeline form): right operand axes = identity with the last two exchanged'),
+    Unit('matmul_lhs_tile.bp', 'c16', 'verif_matmul_lhs_tile', mode='bp', unwind=10, clause='matmul (pipeline form): left operand is repeated m times along its last axis'),
+    Unit('matmul_lhs_reshape.bp', 'c16', 'verif_matmul_lhs_reshape', mode='bp', unwind=10, clause='matmul (pipeline form): tiled left operand reshaped to (..A.., n, m, k)'),
+    Unit('matmul_rhs_reshape.bp', 'c16', 'verif_matmul_rhs_reshape', mode='bp', unwind=10, clause='matmul (pipeline form): transposed right operand reshaped to (..B.., 1, m, k)'),
+    Unit('dot_rhs_transpose.bp', 'c16', 'verif_dot_rhs_transpose', mode='bp', unwind=10, clause='dot: right operand axes = identity with the last two exchanged'),
+    Unit('dot_lhs_tile.bp', 'c16', 'verif_dot_lhs_tile', mode='bp', unwind=10, clause='dot: left operand repeated m times along its last axis'),
+    Unit('dot_lhs_reshape.bp', 'c16', 'verif_dot_lhs_reshape', mode='bp', unwind=10, clause='dot: left operand reshaped to (..A.., 1.., m, k)'),
+    Unit('inner_lhs_reshape.bp', 'c16', 'verif_inner_lhs_reshape', mode='bp', unwind=10, clause='inner: left operand reshaped to (..A.., 1.., k)'),
+    Unit('tensordot_lhs_transpose_n.bp', 'c16', 'verif_tensordot_lhs_transpose_n', mode='bp', unwind=10, clause='tensordot (integer axes): left operand is not transposed'),
+    Unit('tensordot_rhs_transpose_n.bp', 'c16', 'verif_tensordot_rhs_transpose_n', mode='bp', unwind=10, clause='tensordot (integer axes): right operand axes rotated so the contracted first n come last'),
+    Unit('tensordot_lhs_reshape.bp', 'c16', 'verif_tensordot_lhs_reshape', mode='bp', unwind=10, clause='tensordot: left operand reshaped to (a[:-n], 1.., a[-n:])'),
+    Unit('kron_lhs_reshape.bp', 'c16', 'verif_kron_lhs_reshape', mode='bp', unwind=10, clause='kron: left operand reshaped to (a.., 1 x rdim)'),
+    Unit('kron_dst_reshape.uf', 'c16', 'verif_kron_dst_reshape', mode='uf', unwind=10, clause='kron: result extent = product of the right-aligned extents'),
+    Unit('tensordot_lhs_transpose.bp', 'c16', 'verif_tensordot_lhs_transpose', mode='bp', unwind=10, clause='tensordot (explicit axes): left operand axes = non-contracted in increasing order, then the contracted ones in the given order'),
+    Unit('tensordot_rhs_transpose.bp', 'c16', 'verif_tensordot_rhs_transpose', mode='bp', unwind=10, clause='tensordot (explicit axes): right operand axes = non-contracted in increasing order, then the contracted ones in the given order'),
 ]
